@@ -22,6 +22,16 @@ impl Vfs {
         self.file_set.file_for_path(path)
     }
 
+    /// The file table as it is now, for a background task: tasks hold a database snapshot, so they
+    /// must never wait for the lock the main loop holds while it writes to the database.
+    pub fn snapshot(&self) -> Vfs {
+        Vfs {
+            file_set: self.file_set.clone(),
+            next_file_id: self.next_file_id,
+            open_documents: HashMap::new(),
+        }
+    }
+
     pub fn set_open_document(&mut self, path: FilePath, text: &str) {
         self.open_documents.insert(path, text.to_string());
     }
